@@ -49,12 +49,13 @@ CLAIMED = {
    technique='Coq proof (schedule independence of the bit reader model for all scripts; I/O contract model) + correspondence + fault/schedule enumeration on the implementation',
    ref='DESIGN.md section 6 C10'),
  'C03': dict(
-   text='PARTIAL proof + direct search. Safety theorems (no Panic outcome = no panic / checked overflow / out-of-range index) for the modelled components: container layer (every byte string), '
-        'boolean decoder (every string and script), blend kernel, YUV kernels and plane writers, alpha loop and predictor, VP8 loop-filter / transform kernels, VP8L scalar kernels, the lossless bit reader '
-        '(fill, read_bits on every reachable state) and HuffmanTree::build_implicit (every length vector 0..15 up to 5957 symbols: tree or HuffmanError, incl. the debug_assert). All other code is covered by the direct search only: structured mutation of valid files '
-        '(prefixes, every header/size/dimension field, chunk surgery, cross-frame dimension disagreements, VP8L field sabotage), full API call sequence, checked build, watchdog.',
+   text='Coq safety theorems (no Panic outcome of the model = no panic / checked-arithmetic overflow / out-of-range index / failed assert of the Rust code it mirrors; no fuel exhaustion = termination) '
+        'for EVERY byte string on every decode path: container layer (container_new_safe), the whole lossless decoder (RS.frame_safe, also Err on everything the specification rejects), the whole VP8 key-frame decoder '
+        '(VS.vp8_decode_never_panics: header, partitions, token reading for any token sequence, inverse transforms, prediction, loop filter at every level, crop, zero-sized frames), the read_image / read_frame glue with the real '
+        'decoders plugged in (VS.read_image_never_panics, VS.read_frame_payload_never_panics), the boolean decoder, blend, YUV, alpha loop and all translated kernels. The direct search on the implementation '
+        '(structured mutation of valid files: prefixes, every header/size/dimension field, chunk surgery, cross-frame disagreements, VP8L field sabotage; full API call sequence, checked build, watchdog) runs every time.',
    note='Trusted: Coq kernel, translator, hand models (correspondence-checked). The search is exploration, not proof; the evidence lists which functions are under a theorem.',
-   technique='Coq safety proofs for modelled components + structured mutation search on the implementation',
+   technique='Coq safety proofs (state invariants by induction over the parse / reconstruction loops, all inputs) for every modelled decode path + structured mutation search on the implementation',
    ref='DESIGN.md section 6 C03'),
  'C06': dict(
    text='Coq theorems over the hand model of composite_frame / read_frame (Model/Anim.v, repaired tree): for every valid animation the k-th frame delivered equals the '
